@@ -70,7 +70,7 @@ INCONCLUSIVE_PAT = re.compile(r"unwinding assertion|recursion unwinding|is not c
 
 def classify_check(c):
     """-> one of oracle, panic, memory, inconclusive"""
-    d = c.get("description", "")
+    d = c.get("description", "").strip('"')
     cat = c.get("category", "")
     if re.match(r"(C\d\d|ORACLE):", d):
         return "oracle"
